@@ -22,7 +22,7 @@ import (
 func init() { register(&Engine{Name: "C11", Run: runC11}) }
 
 func c11Domain() Domain {
-	return Domain{Untyped: true, EmptyStringElems: true, NilPtrElems: true, ZeroTimeElems: true, BigStrings: true, BigBinaries: true,
+	return Domain{Untyped: true, LooseDyn: true, EmptyStringElems: true, NilPtrElems: true, ZeroTimeElems: true, BigStrings: true, BigBinaries: true,
 		FarDates: true, AllDoubles: true, OddMaps: true, MaxListLen: 8, MaxMapLen: 4}
 }
 
@@ -251,12 +251,22 @@ func c11ValidBytes(v interface{}) []byte {
 	return b
 }
 
+// val draws the next value of a history or probe: mostly one zoo value, sometimes one wide message that
+// mentions 9..24 distinct classes (class tables grow past the sizes small messages reach).
+func (st *c11State) val() interface{} {
+	if st.ch.Intn(10, "val.many") == 1 {
+		st.o.Probes["message with 9..24 distinct classes in a history or probe"]++
+		return st.g.ManyClasses(st.ch.Range(9, 24, "val.many.k"))
+	}
+	return st.g.Value()
+}
+
 func (st *c11State) histOp(kind int) {
-	ch, g, in := st.ch, st.g, st.in
+	ch, in := st.ch, st.in
 	st.opLog = append(st.opLog, c11OpNames[kind])
 	switch kind {
 	case hEncode:
-		v := g.Value()
+		v := st.val()
 		st.around("encode", v, nil, func() {
 			b, err := in.encode(v)
 			if err == nil {
@@ -268,7 +278,7 @@ func (st *c11State) histOp(kind int) {
 		st.around("encode(unrepresentable)", nil, nil, func() { in.encode(v) })
 		st.o.Faults["encode of an unrepresentable value"]++
 	case hWriteToFault:
-		v := g.Value()
+		v := st.val()
 		k := 1 + ch.Intn(40, "abort.k")
 		kind := WFault(1 + ch.Intn(int(nWFault)-1, "abort.kind"))
 		w := &FaultyWriter{FaultAt: k, Kind: kind, site: callerSite}
@@ -286,7 +296,7 @@ func (st *c11State) histOp(kind int) {
 			}
 		}
 	case hDecode:
-		b := c11ValidBytes(g.Value())
+		b := c11ValidBytes(st.val())
 		if ch.Intn(3, "dec.foreign") == 1 {
 			var feats map[string]int
 			b, _, feats = foreignStream(ch, false)
@@ -301,7 +311,7 @@ func (st *c11State) histOp(kind int) {
 			}
 		})
 	case hDecodeDamaged:
-		b := c11ValidBytes(g.Value())
+		b := c11ValidBytes(st.val())
 		var plan []TFault
 		switch ch.Intn(3, "dmg.kind") {
 		case 0:
@@ -330,7 +340,7 @@ func (st *c11State) histOp(kind int) {
 		n := ch.Range(1, 3, "stream.n")
 		var buf bytes.Buffer
 		for i := 0; i < n; i++ {
-			v := g.Value()
+			v := st.val()
 			i := i
 			st.around("stream write", v, nil, func() {
 				if i == 0 {
@@ -346,7 +356,7 @@ func (st *c11State) histOp(kind int) {
 		guarded(func() {
 			e := hessian.NewEncoder(&buf, ZooNameMap)
 			for i := 0; i < n; i++ {
-				e.WriteObject(g.Value())
+				e.WriteObject(st.val())
 			}
 		})
 		data := buf.Bytes()
@@ -388,7 +398,7 @@ func (st *c11State) histOp(kind int) {
 		if st.persistRd == nil {
 			st.persistRd = NewSimReader(nil, nil)
 		}
-		b := c11ValidBytes(g.Value())
+		b := c11ValidBytes(st.val())
 		if ch.Intn(4, "same.dmg") == 1 {
 			b, _, _ = ApplyPlan(b, []TFault{{Kind: TCut, Off: ch.Intn(len(b)+1, "same.cut")}})
 		}
@@ -406,7 +416,7 @@ func (st *c11State) histOp(kind int) {
 		if st.persistW == nil {
 			st.persistW = &bytes.Buffer{}
 		}
-		v := g.Value()
+		v := st.val()
 		st.persistW.Reset()
 		st.around("WriteTo(same writer)", v, nil, func() { in.writeTo(st.persistW, v) })
 		st.o.Probes["WriteTo called again with the same writer object"]++
@@ -472,7 +482,7 @@ func c11ProbeSameReader(in *c11Inst, rd *SimReader, data []byte) (r c11ProbeRes)
 }
 
 func (st *c11State) probe(label string) {
-	ch, g := st.ch, st.g
+	ch := st.ch
 	kind := ch.Intn(nProbe, "probe.kind")
 	var v interface{}
 	var data []byte
@@ -480,10 +490,10 @@ func (st *c11State) probe(label string) {
 		if ch.Intn(8, "probe.bad") == 1 {
 			v = c11BadValue(ch)
 		} else {
-			v = g.Value()
+			v = st.val()
 		}
 	} else {
-		data = c11ValidBytes(g.Value())
+		data = c11ValidBytes(st.val())
 		switch ch.Intn(4, "probe.dmg") {
 		case 1:
 			plan := c14DrawPlan(ch, len(data), nil)
@@ -588,14 +598,14 @@ func runC11(ch *Choices, cfg *RunCfg) (o *Outcome) {
 		o.Sample = map[string]interface{}{"mode": "seeded history", "instance": map[bool]string{true: "Encoder+Decoder", false: "Serializer"}[pair], "history": st.opLog, "aborted_calls": st.aborted}
 	case 1:
 		// enumerated write-side aborts: for every k and kind "WriteTo aborted at Write #k, then probe"
-		v := st.g.Value()
+		v := st.val()
 		ctl := &FaultyWriter{}
 		guarded(func() { hessian.NewEncoder(nil, ZooNameMap).WriteTo(ctl, v) })
 		W := ctl.Calls
 		if W > 120 {
 			W = 120
 		}
-		pv := st.g.Value() // the probe value is fixed for the whole enumeration
+		pv := st.val() // the probe value is fixed for the whole enumeration
 		for k := 1; k <= W && o.Class == ""; k++ {
 			for kind := WErrOnce; kind < nWFault && o.Class == ""; kind++ {
 				tm, nm := st.pristineMaps()
@@ -636,7 +646,7 @@ func runC11(ch *Choices, cfg *RunCfg) (o *Outcome) {
 			data = deepBadStream(ch.Range(1, 120, "soak.depth"))
 			what = "decode of nested lists ending in an undefined class index"
 		case 1:
-			data = c11ValidBytes(st.g.Value())
+			data = c11ValidBytes(st.val())
 			data, _, _ = ApplyPlan(data, c14DrawPlan(ch, len(data), nil))
 			what = "decode of a damaged stream"
 		case 4:
@@ -650,7 +660,7 @@ func runC11(ch *Choices, cfg *RunCfg) (o *Outcome) {
 			}
 			what = "decode of a typed list of an unknown type (possibly cut inside / behind the type name)"
 		case 2:
-			val = st.g.Value()
+			val = st.val()
 			what = "WriteTo aborted by a writer fault"
 		default:
 			val = map[string]interface{}{"a": int32(1), "k": &K19{A: 1, P: &K18{A: 2, S: "x"}}, "z": make(chan int)}
@@ -708,11 +718,11 @@ func runC11(ch *Choices, cfg *RunCfg) (o *Outcome) {
 		o.Sample = map[string]interface{}{"mode": "soak", "repeated": what, "times": R, "chain_nodes": n}
 	default:
 		// enumerated read-side aborts: every cut offset, then a decode probe
-		b := c11ValidBytes(st.g.Value())
+		b := c11ValidBytes(st.val())
 		if len(b) > 400 {
 			b = b[:400]
 		}
-		pb := c11ValidBytes(st.g.Value())
+		pb := c11ValidBytes(st.val())
 		if ch.Intn(2, "enum.dangling") == 1 {
 			if ch.Intn(2, "enum.foreign") == 1 {
 				b, _, _ = foreignStream(ch, false)
